@@ -1,5 +1,6 @@
 """C18 — hostile or corrupt archives cannot hang the tools or escape the destination."""
 import os
+import zlib
 import re
 
 from common import drv, cps
@@ -158,7 +159,7 @@ def check_confined(res, stream, case, r, arena, before, allowed_prefixes, archiv
     after = P.tree(arena)
     bad = []
     for k in set(before) | set(after):
-        if before.get(k) != after.get(k):
+        if ((k in before) != (k in after) or before.get(k) != after.get(k)):
             if k.rstrip("/") in [a.rstrip("/") for a in allowed_prefixes] or (k.endswith("/") and k in may_create and after.get(k) is None and k in after):
                 continue
             if not any(k.startswith(a) for a in allowed_prefixes):
@@ -193,11 +194,11 @@ def one_disk(ctx, res, job):
     out = {}
     before = P.tree(arena)
     # the verbosity of the real runs varies with the case (the model's report is compared for status only)
-    quiet_list = (len(raw) + len(label)) % 3 == 0
+    quiet_list = (zlib.crc32(raw) + len(label)) % 3 == 0
     out["list"] = P.run_sandboxed(tool, ["-t"] + ([] if quiet_list else ["-v"]) + ["h." + fl], work, os.path.join(ctx.fresh_dir(), "log"))
     out["before"] = before
     out["after_list"] = P.tree(arena)
-    args = ["-x"] + (["-v"] if (len(raw) + len(label)) % 2 == 0 else []) + (["--into", into] if into else []) + ["h." + fl]
+    args = ["-x"] + (["-v"] if (zlib.crc32(raw) // 3 + len(label)) % 2 == 0 else []) + (["--into", into] if into else []) + ["h." + fl]
     out["extract"] = P.run_sandboxed(tool, args, work, os.path.join(ctx.fresh_dir(), "log2"))
     out["arena"] = arena
     return job, out
@@ -248,7 +249,7 @@ def run(ctx, res):
             impl = "ok0" if r["rc"] == 0 else next((p for k, p in r["events"] if k == "X"), exc_name(r["err"]))
             if r["killed"]:
                 impl = "killed"
-            if impl != mo["status"]:
+            if impl != mo["status"] and not (impl == "?" and r["rc"] not in (0, None) and not r["killed"] and mo["status"] != "ok0"):
                 res.disagree("disk_mutations", dict(case, action=act), mo["status"], impl + " | " + r["err"][-160:])
             elif act == "extract":
                 after = P.tree(out["arena"])
@@ -271,9 +272,9 @@ def run(ctx, res):
         with open(os.path.join(work, "h.k7"), "wb") as f:
             f.write(raw)
         before = P.tree(arena)
-        rl = P.run_sandboxed("moto_tar", ["-t"] + ([] if len(raw) % 3 == 0 else ["-v"]) + ["h.k7"], work, os.path.join(ctx.fresh_dir(), "log"))
+        rl = P.run_sandboxed("moto_tar", ["-t"] + ([] if zlib.crc32(raw) % 3 == 0 else ["-v"]) + ["h.k7"], work, os.path.join(ctx.fresh_dir(), "log"))
         mid = P.tree(arena)
-        rx = P.run_sandboxed("moto_tar", ["-x"] + (["-v"] if len(label) % 2 == 0 else []) + (["--into", into] if into else []) + ["h.k7"], work, os.path.join(ctx.fresh_dir(), "log2"))
+        rx = P.run_sandboxed("moto_tar", ["-x"] + (["-v"] if (zlib.crc32(raw) // 3 + len(label)) % 2 == 0 else []) + (["--into", into] if into else []) + ["h.k7"], work, os.path.join(ctx.fresh_dir(), "log2"))
         return job, {"list": rl, "extract": rx, "before": before, "mid": mid, "arena": arena}
 
     st = res.stream("tape_mutations")
@@ -300,7 +301,7 @@ def run(ctx, res):
             st.compared += 1
             r = out[act]
             impl = "ok0" if r["rc"] == 0 else next((p for k, p in r["events"] if k == "X"), exc_name(r["err"]))
-            if impl != mo["status"]:
+            if impl != mo["status"] and not (impl == "?" and r["rc"] not in (0, None) and not r["killed"] and mo["status"] != "ok0"):
                 res.disagree("tape_mutations", dict(case, action=act), mo["status"], impl + " | " + r["err"][-160:])
     res.sample({"tape_mutation": tjobs[0][1]})
     scaling(ctx, res)
